@@ -37,8 +37,8 @@ pub fn describe(f: Fam, thorough: bool) -> &'static str {
         (Fam::Node, true) => "NODE(2) on 8 base bodies",
         (Fam::Pred, false) => "PRED: EBNF(2,1,2) with 1 inserted ?1/?t/!1/#1",
         (Fam::Pred, true) => "PRED: EBNF(2,1,2) with <=2, EBNF(3,1,2) with 1 inserted ?1/?t/!1/#1",
-        (Fam::Choice, false) => "CHOICE: one ordered choice in EBNF(3,0,2) with <=1 inserted ~, and in two-rule EBNF(4,0,2)",
-        (Fam::Choice, true) => "CHOICE: one ordered choice in EBNF(3,0,2) with <=2 inserted ~/&/!1, EBNF(4,0,2) with <=1",
+        (Fam::Choice, false) => "CHOICE: one ordered choice in EBNF(3,0,2) with <=1 inserted ~, in two-rule EBNF(4,0,2), CHOICE-TAIL (choice with nullable last alternative at the end of a rule, 60 grammars)",
+        (Fam::Choice, true) => "CHOICE: one ordered choice in EBNF(3,0,2) with <=2 inserted ~/&/!1, EBNF(4,0,2) with <=1, CHOICE-TAIL",
         (Fam::Markers, false) => "MARKERS: two marker/creation pairs in every placement (crossing included) in `x: A B C A`",
         (Fam::Markers, true) => "MARKERS: two marker/creation pairs in every placement (crossing included) in `x: A B C A` and `x: A y C A`",
         (Fam::Parts, false) => "PARTS: EBNF(3,1,3) with every non-empty subset of non-start rules as parts",
@@ -83,11 +83,13 @@ pub fn family_of(f: Fam, thorough: bool) -> Vec<Grammar> {
                     .into_iter()
                     .filter(|g| g.rules.len() == 2),
             );
+            v.extend(choice_tail_family());
             v
         }
         (Fam::Choice, true) => {
             let mut v = choice_family(&ebnf_bound(3, 0, 2, false), 2);
             v.extend(choice_family(&ebnf_bound(4, 0, 2, false), 1));
+            v.extend(choice_tail_family());
             v
         }
         (Fam::Markers, t) => markers_family(if t { &[0, 1] } else { &[0] }),
